@@ -4,6 +4,8 @@ package main
 //
 //	2000  a data flush starts between the replicator's WriteRows and CommitSequence of an entry for an existing series
 //	2001  a row with new names is applied right after the metadata flush swapped its stores; index and data flush follow
+//	2002  the log partition of an old family is drained and removed by the WAL garbage collector, then a late write
+//	      re-creates it: the new log starts at sequence 0, the family refuses everything up to its stored sequence
 //
 // By hand: LOG_LEVEL=fatal TZ=UTC bin/c07 hist 2000 <dir> quick ; bin/c07 verify <dir>/ledger.json 0 100000 <dir>/out.jsonl
 
@@ -30,6 +32,31 @@ func directedPlan(n int, t0 int64) *plan {
 			{Kind: "meta", Cycle: 1, CycKind: "busy"},
 			{Kind: "index", Cycle: 1, CycKind: "busy", Shard: 0},
 			{Kind: "data", Cycle: 1, CycKind: "busy", Shard: 0, Family: fam, Racing: []rowRec{row("m0", "u1", "h1", 20, false)}},
+		}
+	case 2:
+		// an old family: its log partition is drained, the garbage collector removes it, a late write arrives
+		old := t0 - 72*hourMs
+		p.Families = []int64{fam, old}
+		p.Old = old
+		orow := func(uid string, slot int, newSeries bool) rowRec {
+			r := row("m0", uid, "h1", slot, newSeries)
+			r.Family = old
+			return r
+		}
+		p.Steps = []planStep{
+			{Kind: "arrive", Cycle: -1, Actions: appendRepl(orow("u1", 10, true), orow("u1", 11, false))},
+			{Kind: "meta", Cycle: 0, CycKind: "quiet"},
+			{Kind: "index", Cycle: 0, CycKind: "quiet", Shard: 0},
+			{Kind: "data", Cycle: 0, CycKind: "quiet", Shard: 0, Family: fam},
+			{Kind: "data", Cycle: 0, CycKind: "quiet", Shard: 0, Family: old},
+			{Kind: "gc", Cycle: 0},
+			{Kind: "recreate", Shard: 0, Family: old},
+			{Kind: "arrive", Cycle: 1, Actions: appendRepl(orow("u1", 20, false))},
+			{Kind: "arrive", Cycle: 1, Actions: appendRepl(orow("u2", 21, true))},
+			{Kind: "arrive", Cycle: 1, Actions: appendRepl(orow("u2", 22, false))},
+			{Kind: "meta", Cycle: 1, CycKind: "quiet"},
+			{Kind: "index", Cycle: 1, CycKind: "quiet", Shard: 0},
+			{Kind: "data", Cycle: 1, CycKind: "quiet", Shard: 0, Family: old},
 		}
 	default:
 		p.Steps = []planStep{
